@@ -1,34 +1,23 @@
 #!/usr/bin/env python3
-"""refaccheck.py <patch>... - false-alarm test: apply a behaviour-preserving refactoring to /repo, run ALL checks
-(`bin/sa -prop Cxx -no-evidence`), undo. Any CONTROL-FAIL / CONTROL-FLOOR line is a false alarm of the machinery
-(the one open static finding of C20 is ignored). /repo is left clean; nothing is written under /verif."""
-import subprocess, sys, re, concurrent.futures
+"""refaccheck.py <patch>... - false-alarm test: run ALL 20 checks on /repo's tree with a behaviour-preserving
+refactoring applied as an in-memory overlay (tools/patchrun.py; /repo is not modified). Any failing obligation is a
+false alarm of the machinery (the one open static finding of C20 is ignored). Exit 1 if any patch alarms."""
+import os, sys, concurrent.futures
+sys.path.insert(0, os.path.dirname(os.path.abspath(__file__)))
+import patchrun
 props = ["C%02d" % i for i in range(1, 21)]
-def run(p):
-    return p, subprocess.run(["/verif/bin/sa", "-prop", p, "-no-evidence"], capture_output=True, text=True).stdout
 rc = 0
-for patch in [__import__("os").path.abspath(x) for x in sys.argv[1:]]:
-    assert subprocess.run(["git", "-C", "/repo", "status", "--porcelain"], capture_output=True, text=True).stdout.strip() == "", "/repo not clean"
-    if subprocess.run(["git", "-C", "/repo", "apply", patch]).returncode != 0:
-        print("DOES-NOT-APPLY", patch); continue
-    try:
-        b = subprocess.run(["go", "build", "./..."], cwd="/repo", capture_output=True, text=True,
-                           env=dict(__import__("os").environ, GOFLAGS="-mod=mod", GOPROXY="off", GOSUMDB="off", GOTOOLCHAIN="local"))
-        if b.returncode != 0:
-            print("DOES-NOT-BUILD", patch, b.stderr[:300]); continue
-        alarms = []
-        with concurrent.futures.ThreadPoolExecutor(5) as ex:
-            for p, out in ex.map(run, props):
-                for l in out.splitlines():
-                    if re.match(r"CONTROL-(FAIL|FLOOR)", l) and "registered-functions-stateless" not in l:
-                        alarms.append(p + " " + l[:260])
+def one(patch):
+    return patch, patchrun.run(patch, props)
+with concurrent.futures.ThreadPoolExecutor(4) as ex:
+    for patch, (st, out) in ex.map(one, sys.argv[1:]):
+        if st != "ok":
+            print("DOES-NOT-APPLY", patch); continue
+        alarms = [p + " " + l[:260] for p in props for l in out[p]]
         if alarms:
             rc = 1
             print("ALARM", patch)
             for a in alarms: print("   ", a)
         else:
             print("SILENT", patch)
-    finally:
-        subprocess.run(["git", "-C", "/repo", "checkout", "--", "."], check=True)
-        subprocess.run(["git", "-C", "/repo", "clean", "-fdq"], check=True)
 sys.exit(rc)
